@@ -9,9 +9,10 @@ from .. import types as T
 class RuleAlias(object):
   """Adapter around a Run that records the obligations of a rule function written for another
   property under this property's rule id (e.g. C05-R5 -> C10-R3) without editing that module."""
-  def __init__(self, run, mapping):
+  def __init__(self, run, mapping, world=None):
     self._run = run
     self._map = dict(mapping)
+    self._world = world
 
   def _id(self, rid):
     return self._map.get(rid, rid)
@@ -20,6 +21,29 @@ class RuleAlias(object):
     return self._run.rule(self._id(rule_id), desc, floor)
 
   def ob(self, rule, *a, **k):
+    # other groups' rule functions may tag an obligation missing=True: it fails because the
+    # mechanism was not found at all (as opposed to found and seen broken). Not found in a
+    # function that hands work to helpers the rule did not read is "cannot decide".
+    missing = bool(k.pop("missing", False))
+    ok = a[3] if len(a) > 3 else k.get("ok")
+    if missing and not ok and self._world is not None:
+      w = self._world
+      fi = w.repo.funcs.get(a[0]) if a else None
+      if fi is not None:
+        fn = w.fn_of(fi)
+        import re as _re
+        toks = {t for t in _re.findall(r"[A-Za-z_][A-Za-z_0-9]*", str(a[1])) if "_" in t.strip("_")
+                or t.startswith("_")}
+        def relevant(h):
+          return any((isinstance(x, ast.Attribute) and x.attr in toks) or
+                     (isinstance(x, ast.Name) and x.id in toks) for x in ast.walk(h.node))
+        opaque = [short(c, 50) for (n, c, nm) in fn.calls()
+                  if local_callee(w, fn, c) is not None and
+                  is_private_part(w, local_callee(w, fn, c)) == (True, fi.qualname) and
+                  relevant(local_callee(w, fn, c))]
+        if opaque:
+          raise AnalysisError("%s: `%s` not found in the function itself, which calls %s"
+                              % (a[0], str(a[1])[:70], opaque[0]))
     return self._run.ob(self._id(rule), *a, **k)
 
   def __getattr__(self, name):
@@ -366,8 +390,8 @@ def record_table_of(fn, expr, w, handles, depth=0, env=None, own_table=None):
           isinstance(x.func.value, ast.Name) and x.func.value.id == expr.id and \
           x.func.attr in ("append", "add", "extend") and len(x.args) == 1:
         ds.append(x.args[0])
-      elif isinstance(x, (ast.For, ast.AsyncFor)) and isinstance(x.target, ast.Name) and \
-          x.target.id == expr.id:
+      elif isinstance(x, (ast.For, ast.AsyncFor, ast.comprehension)) and \
+          isinstance(x.target, ast.Name) and x.target.id == expr.id:
         ds.append(x.iter)
     if not ds:
       return None
@@ -868,12 +892,27 @@ def loop_as_comprehension(fn, du, rd, name, at):
       return (_subst(s.targets[0].slice, env), _subst(s.value, env))
     return None
 
+  def skip_cond(s):
+    """condition under which `if ...: [if ...:] continue` skips the rest of the iteration"""
+    if isinstance(s, ast.If) and not s.orelse and len(s.body) == 1:
+      if isinstance(s.body[0], ast.Continue):
+        return s.test
+      inner = skip_cond(s.body[0])
+      if inner is not None:
+        return ast.BoolOp(op=ast.And(), values=[s.test, inner])
+    return None
+
   def block(stmts, env, allow_filter):
     """(filters, key or None, value) for a statement block that performs exactly one write on
     every path through it (filters: tests under which nothing is written), else None."""
     env = dict(env)
+    skips = []
     for i, s in enumerate(stmts):
       last = i == len(stmts) - 1
+      sk = skip_cond(s) if (allow_filter and not last) else None
+      if sk is not None:
+        skips.append(ast.UnaryOp(op=ast.Not(), operand=_subst(sk, env)))
+        continue
       if isinstance(s, ast.Assign) and len(s.targets) == 1 and isinstance(s.targets[0], ast.Name) \
           and s.targets[0].id != name and not calls_in(s.value) and not last:
         env[s.targets[0].id] = _subst(s.value, env)
@@ -882,14 +921,16 @@ def loop_as_comprehension(fn, du, rd, name, at):
         return None
       w_ = write_of(s, env)
       if w_ is not None:
-        return ([], w_[0], w_[1])
+        return (skips, w_[0], w_[1])
+      if skips and isinstance(s, ast.If) and s.orelse:
+        return None
       if isinstance(s, ast.If):
         test = _subst(s.test, env)
         if not s.orelse:
           if not allow_filter:
             return None
           inner = block(s.body, env, True)
-          return None if inner is None else ([test] + inner[0], inner[1], inner[2])
+          return None if inner is None else (skips + [test] + inner[0], inner[1], inner[2])
         b1, b2 = block(s.body, env, False), block(s.orelse, env, False)
         if b1 is None or b2 is None or (b1[1] is None) != (b2[1] is None):
           return None
